@@ -59,6 +59,21 @@ static int memeq(const void *a, const void *b, size_t n)
   return 1;
 }
 
+/* -DM_OOM=k (C14 / C18): allocation number k AFTER the function's own record parse fails (the record parse of a
+ * shape-concrete message makes a constant number of allocations, measured on the harness's own ares_dns_parse run).
+ * Outcome allowed: ARES_ENOMEM with no result at all, or the complete correct result - never a silently shortened
+ * answer or another status. */
+#ifdef M_OOM
+static unsigned long oom_base;
+#  define OOM_ARM()    do { vp_alloc_calls = 0; vp_alloc_fail_at = oom_base + (M_OOM); } while (0)
+#  define OOM_DISARM() (vp_alloc_fail_at = 0)
+#  define OOM_HIT(st)  ((st) == ARES_ENOMEM)
+#else
+#  define OOM_ARM()    ((void)0)
+#  define OOM_DISARM() ((void)0)
+#  define OOM_HIT(st)  0
+#endif
+
 static int malformed_status(int st)
 {
   return st == ARES_EBADRESP || st == ARES_EBADNAME || st == ARES_EBADSTR || st == ARES_EFORMERR;
@@ -177,7 +192,13 @@ void harness(void)
   for (i = 0; i < ML; i++)
     msg[i] = cells[i].kind ? cells[i].val : vp_u8();
 
+#ifdef M_OOM
+  vp_alloc_calls = 0;
+#endif
   st_rec = ares_dns_parse(msg, ML, 0, &rec);
+#ifdef M_OOM
+  oom_base = vp_alloc_calls;
+#endif
   if (st_rec == ARES_SUCCESS)
     n = count_wanted(rec);
 
@@ -198,10 +219,18 @@ void harness(void)
     }
 #  endif
 #  if PARSER == 1
+    OOM_ARM();
     st = ares_parse_a_reply(msg, (int)ML, &host, CAP ? tt : NULL, &ntt);
 #  else
+    OOM_ARM();
     st = ares_parse_aaaa_reply(msg, (int)ML, &host, CAP ? tt : NULL, &ntt);
 #  endif
+    OOM_DISARM();
+    if (OOM_HIT(st)) {
+      VP_ASSERT(host == NULL && ntt == 0, "allocation failure: ARES_ENOMEM and no result at all");
+      VP_WITNESS("out of memory");
+      goto oom_out12;
+    }
     VP_ASSERT((st_rec != ARES_SUCCESS) == malformed_status(st), "malformed-message status exactly when the record parser rejects");
     if (st_rec == ARES_SUCCESS) {
       if (n == 0 && the_cname(rec) == NULL) {
@@ -252,6 +281,7 @@ void harness(void)
       VP_ASSERT(host == NULL && ntt == 0, "malformed: no result");
       VP_WITNESS("malformed");
     }
+  oom_out12:
     ares_free_hostent(host);
     vp_free(tt);
   }
@@ -259,12 +289,20 @@ void harness(void)
   {
     struct hostent *host = NULL;
 #  if PARSER == 6
+    OOM_ARM();
     st = ares_parse_ns_reply(msg, (int)ML, &host);
 #  else
     unsigned char addr[4];
     vp_bytes(addr, 4);
+    OOM_ARM();
     st = ares_parse_ptr_reply(msg, (int)ML, addr, 4, AF_INET, &host);
 #  endif
+    OOM_DISARM();
+    if (OOM_HIT(st)) {
+      VP_ASSERT(host == NULL, "allocation failure: ARES_ENOMEM and no result at all");
+      VP_WITNESS("out of memory");
+      goto oom_out67;
+    }
     VP_ASSERT((st_rec != ARES_SUCCESS) == malformed_status(st), "malformed-message status exactly when the record parser rejects");
     if (st_rec == ARES_SUCCESS) {
       if (n == 0) {
@@ -291,35 +329,50 @@ void harness(void)
       VP_ASSERT(host == NULL, "malformed: no result");
       VP_WITNESS("malformed");
     }
+  oom_out67:
     ares_free_hostent(host);
   }
 #else
   {
 #  if PARSER == 3
     struct ares_caa_reply *out = NULL, *p;
+    OOM_ARM();
     st = ares_parse_caa_reply(msg, (int)ML, &out);
 #  elif PARSER == 4
     struct ares_mx_reply *out = NULL, *p;
+    OOM_ARM();
     st = ares_parse_mx_reply(msg, (int)ML, &out);
 #  elif PARSER == 5
     struct ares_naptr_reply *out = NULL, *p;
+    OOM_ARM();
     st = ares_parse_naptr_reply(msg, (int)ML, &out);
 #  elif PARSER == 8
     struct ares_soa_reply *out = NULL, *p;
+    OOM_ARM();
     st = ares_parse_soa_reply(msg, (int)ML, &out);
 #  elif PARSER == 9
     struct ares_srv_reply *out = NULL, *p;
+    OOM_ARM();
     st = ares_parse_srv_reply(msg, (int)ML, &out);
 #  elif PARSER == 10
     struct ares_txt_reply *out = NULL, *p;
+    OOM_ARM();
     st = ares_parse_txt_reply(msg, (int)ML, &out);
 #  elif PARSER == 11
     struct ares_txt_ext *out = NULL, *p;
+    OOM_ARM();
     st = ares_parse_txt_reply_ext(msg, (int)ML, &out);
 #  else
     struct ares_uri_reply *out = NULL, *p;
+    OOM_ARM();
     st = ares_parse_uri_reply(msg, (int)ML, &out);
 #  endif
+    OOM_DISARM();
+    if (OOM_HIT(st)) {
+      VP_ASSERT(out == NULL, "allocation failure: ARES_ENOMEM and no result at all");
+      VP_WITNESS("out of memory");
+      goto oom_outd;
+    }
     /* KF region of legacy_nodata_success: the message parses and holds no class-IN record of the parser's type */
 #  ifdef KFONLY_legacy_nodata_success
     VP_ASSUME(st_rec == ARES_SUCCESS && n == 0);
@@ -425,6 +478,7 @@ void harness(void)
 #  endif
       VP_WITNESS("data");
     }
+  oom_outd:
     ares_free_data(out);
   }
 #endif
